@@ -16,6 +16,8 @@ from checks import udp_common as U
 
 ASSUME = [
     "wire sizes are what the harness sockets sent/received (UDP payload lengths)",
+    "every behaviour ends with the listener being closed (most of them while associations are live); exactly one RemoveNatEntry per "
+    "association is required afterwards, and gathered nat_entries_removed == nat_entries_added",
     "a reply larger than the proxy's read buffer is truncated by the kernel; the size the proxy read is what it can report",
     "the driver is step-synchronous; metrics calls made during a step are attributed to that step's datagram",
     "TLC 1.8.0 and the hand transcription of udp.go into UdpNat.tla",
@@ -30,27 +32,26 @@ def nontrivial(b):
 def run(ctx):
     q = ctx.quick
     U.exhaustive(ctx, ["MC_UdpNatC16.cfg", "MC_UdpNatSync.cfg"] if q else ["MC_UdpNatC16T.cfg", "MC_UdpNatSync.cfg", "MC_UdpNatLong.cfg"], "C16")
-    behs = U.gen(ctx, "Gen_UdpNatReal.cfg", 100 if q else 600, seed=ctx.seed + 104729)
-    trace, sums = U.run_real(ctx, behs, "c16")
-    U.validate(ctx, trace, "UdpNatTraceReal.cfg", U.PROPS["C16"], "real sockets, recording metrics", behs)
-    U.summary_violations(ctx, sums, behs, "real sockets, recording metrics", set())
-    # second pass: real Prometheus collectors
-    b2 = behs[: (40 if q else 300)]
-    trace2, sums2 = U.run_real(ctx, b2, "c16prom", prom=True)
-    U.validate(ctx, trace2, "UdpNatTraceReal.cfg", U.PROPS["C16"], "real sockets, Prometheus collectors behind the recorder", b2)
-    U.summary_violations(ctx, sums2, b2, "Prometheus pass", {"prom"})
-    ctx.cov["evaluations"] += len(behs) + len(b2)
-    ctx.cov["distinct_nontrivial"] += U.count(behs, nontrivial)
-    rows = vlib.read_ndjson(trace)
-    ctx.cov["metrics_calls_checked"] = sum(1 for r in rows if r.get("ev") == "M")
-    ctx.cov["prometheus_gathers_compared"] = sum(1 for s in sums2 if s.get("prom"))
-    sts = {}
-    for r in rows:
-        if r.get("ev") == "M" and r["m"] in ("PktC", "PktT"):
-            sts[r["m"] + ":" + r["st"]] = sts.get(r["m"] + ":" + r["st"], 0) + 1
+    fams = U.real_families(ctx, "c16", 60 if q else 400, 35 if q else 200, U.PROPS["C16"], seed_off=104729, want={"returned"})
+    # second pass: the REAL Prometheus collectors (private registry) behind the recorder.  Every behaviour ends with the listener
+    # being closed, usually while associations are still live: afterwards nat_entries_removed must equal nat_entries_added.
+    fams2 = U.real_families(ctx, "c16prom", 25 if q else 200, 15 if q else 100, U.PROPS["C16"], seed_off=15485863, prom=True, want={"returned", "prom"})
+    sts, ncalls, live_at_close = {}, 0, 0
+    for fam, behs, trace, sums in fams + fams2:
+        ctx.cov["evaluations"] += len(behs)
+        ctx.cov["distinct_nontrivial"] += U.count(behs, nontrivial)
+        rows = vlib.read_ndjson(trace)
+        ncalls += sum(1 for r in rows if r.get("ev") == "M")
+        for r in rows:
+            if r.get("ev") == "M" and r["m"] in ("PktC", "PktT"):
+                sts[r["m"] + ":" + r["st"]] = sts.get(r["m"] + ":" + r["st"], 0) + 1
+        live_at_close += sum(1 for x in sums if x.get("live_at_close", 0) > 0)
+    ctx.cov["metrics_calls_checked"] = ncalls
     ctx.cov["statuses_seen"] = sts
-    ctx.sample({"behaviour": behs[0]})
-    ctx.sample({"prometheus": next((s["prom"] for s in sums2 if s.get("prom") and s["prom"]["bytes"]), None)})
+    ctx.cov["behaviours_closing_the_listener_with_live_associations"] = live_at_close
+    ctx.cov["prometheus_gathers_compared"] = sum(1 for f in fams2 for x in f[3] if x.get("prom"))
+    ctx.sample({"behaviour": fams[0][1][0]})
+    ctx.sample({"prometheus": next((x["prom"] for f in fams2 for x in f[3] if x.get("prom") and x["prom"]["bytes"]), None)})
     vlib.write_evidence(ctx, "model_checking",
                         "as C03; non-trivial = the behaviour contains a forwarded datagram and a datagram sent to an association's "
                         "socket; the Prometheus pass re-executes a prefix of the behaviours",
